@@ -34,6 +34,13 @@ deriving DecidableEq, Repr
 
 abbrev P (α : Type) := Except Err α
 
+instance {α : Type} [DecidableEq α] : DecidableEq (P α) := fun a b =>
+  match a, b with
+  | .ok x, .ok y => if h : x = y then isTrue (by rw [h]) else isFalse (by intro e; cases e; exact h rfl)
+  | .error x, .error y => if h : x = y then isTrue (by rw [h]) else isFalse (by intro e; cases e; exact h rfl)
+  | .ok _, .error _ => isFalse (by intro e; cases e)
+  | .error _, .ok _ => isFalse (by intro e; cases e)
+
 /-! ### reserved words, names, paths -/
 
 def Comparisons : List Str := ["==", "<", "<=", ">=", ">", "!="].map String.toList
@@ -158,39 +165,45 @@ def parseRelation : List Str → Str → P (Str × List Str)
             (if identPub name then actorRel name (parseRelation rest2 []) else .error .parse)
           else actorRel (str "me") (parseRelation (name :: rest2) [])
 
+/-- the path `parseIndirect` returns for a path token and the relation parsed after it
+(`relation + path`, inline `framer.`/`frame.`/`actor.` heads, conflicts) -/
+def indirectPath (node : Bool) (path relation : Str) : P Str :=
+  if dotPath node path then .ok (relation ++ path)
+  else if relPath node path then
+    let chunks := splitDots path
+    let c0 := chunks.headD []
+    if !relation.isEmpty then
+      if [str "framer", str "frame", str "actor"].contains c0 &&
+         (c0 == str "framer" ||
+          (c0 == str "frame" && isSubstr (str ".frame.") relation) ||
+          (c0 == str "actor" && isSubstr (str ".actor.") relation)) then .error .parse
+      else if [str "framer", str "frame", str "actor"].contains c0 && relation == str "me" then .error .parse
+      else .ok (relation ++ '.' :: path)
+    else
+      if c0 == str "actor" then
+        if chunks.length < 3 then .error .parse else .ok (str "framer.me.frame.me." ++ path)
+      else if c0 == str "frame" then
+        if chunks.length < 3 then .error .parse
+        else
+          let fn := if chunks.getD 1 [] == str "main" then str "main" else str "me"
+          .ok (str "framer." ++ fn ++ '.' :: path)
+      else .ok path
+  else .error .parse
+
 /-- `parseIndirect(tokens, index, node)` -/
 def parseIndirect (node : Bool) (toks : List Str) : P (Str × List Str) :=
   match toks with
   | [] => .error .index
   | path :: rest =>
     if isReserved path then .error .parse
-    else if dotPath node path then
-      match parseRelation rest [] with
-      | .error e => .error e
-      | .ok (relation, rest') => .ok (relation ++ path, rest')
-    else if relPath node path then
+    else if !(dotPath node path || relPath node path) then .error .parse   -- "Invalid path"
+    else
       match parseRelation rest [] with
       | .error e => .error e
       | .ok (relation, rest') =>
-        let chunks := splitDots path
-        let c0 := chunks.headD []
-        if !relation.isEmpty then
-          if [str "framer", str "frame", str "actor"].contains c0 &&
-             (c0 == str "framer" ||
-              (c0 == str "frame" && isSubstr (str ".frame.") relation) ||
-              (c0 == str "actor" && isSubstr (str ".actor.") relation)) then .error .parse
-          else if [str "framer", str "frame", str "actor"].contains c0 && relation == str "me" then .error .parse
-          else .ok (relation ++ '.' :: path, rest')
-        else
-          if c0 == str "actor" then
-            if chunks.length < 3 then .error .parse else .ok (str "framer.me.frame.me." ++ path, rest')
-          else if c0 == str "frame" then
-            if chunks.length < 3 then .error .parse
-            else
-              let fn := if chunks.getD 1 [] == str "main" then str "main" else str "me"
-              .ok (str "framer." ++ fn ++ '.' :: path, rest')
-          else .ok (path, rest')
-    else .error .parse
+        match indirectPath node path relation with
+        | .error e => .error e
+        | .ok p => .ok (p, rest')
 
 /-- `parsePath` -/
 def parsePath (toks : List Str) : P (Str × List Str) :=
@@ -405,22 +418,17 @@ theorem parseIndirect_short (node : Bool) (toks : List Str) : Short toks.length 
     split
     · exact short_error _ _
     · split
+      · exact short_error _ _
       · cases hpr : parseRelation rest [] with
         | error e => exact short_error _ _
         | ok p =>
           obtain ⟨relation, rest'⟩ := p
-          exact short_ok _ _ (by have := hrel relation rest' hpr; simp; omega)
-      · split
-        · cases hpr : parseRelation rest [] with
+          have hl : rest'.length ≤ (path :: rest).length := by
+            have := hrel relation rest' hpr; simp; omega
+          simp only []
+          cases indirectPath node path relation with
           | error e => exact short_error _ _
-          | ok p =>
-            obtain ⟨relation, rest'⟩ := p
-            have hl : rest'.length ≤ (path :: rest).length := by
-              have := hrel relation rest' hpr; simp; omega
-            simp only []
-            repeat' split
-            all_goals first | exact short_error _ _ | exact short_ok _ _ hl
-        · exact short_error _ _
+          | ok q => exact short_ok _ _ hl
 
 theorem parsePath_short (toks : List Str) : Short toks.length (parsePath toks) := by
   unfold parsePath
@@ -995,5 +1003,33 @@ def markerLoop : List Str → MarkerCfg → P (MarkerCfg × List Str)
       | [] => .error .index
       | m :: rest1 => markerLoop rest1 { s with marker := stripQuotes m }
     else .ok (s, c :: rest)
+
+/-! ### clause texts and the regions of the known findings -/
+
+/-- the connectives of a list of clause texts (`key body…`) -/
+def keysOf (cs : List (List Str)) : List Str := cs.filterMap List.head?
+
+/-- does a relation text end with a relation word whose optional name is omitted? -/
+def openRel (toks : List Str) : Bool :=
+  toks.getLast? == some (str "framer") || toks.getLast? == some (str "frame") || toks.getLast? == some (str "actor")
+
+/-- D9 (buildDo as found): an `as` clause together with a `via`, `from` or `per` clause -/
+def d9Region (cs : List (List Str)) : Bool :=
+  (keysOf cs).contains (str "as") &&
+  ((keysOf cs).contains (str "via") || (keysOf cs).contains (str "from") || (keysOf cs).contains (str "per"))
+
+/-- D51 (buildFramer): a `first` clause together with a `via` clause whose relation ends open -/
+def d51Region (cs : List (List Str)) : Bool :=
+  (keysOf cs).contains (str "first") &&
+  cs.any (fun c => c.head? == some (str "via") && openRel c.tail.tail)
+
+/-- D52 (buildServer): a `per` clause together with an `rx` or `tx` clause -/
+def d52Region (cs : List (List Str)) : Bool :=
+  (keysOf cs).contains (str "per") && ((keysOf cs).contains (str "rx") || (keysOf cs).contains (str "tx"))
+
+/-- D53 (buildServer): a `for` clause without field list together with an `in` clause -/
+def d53Region (cs : List (List Str)) : Bool :=
+  (keysOf cs).contains (str "in") &&
+  cs.any (fun c => c.head? == some (str "for") && !c.tail.contains (str "in"))
 
 end Ioflo.Clauses
